@@ -335,6 +335,23 @@ func arConcrete(p *Prog) *arBounded {
 					gotEnd = "EOF"
 				} else {
 					gotEnd = "error"
+					// an error that wraps io.EOF is taken for the clean end by every caller that asks errors.Is
+					cur := Val(ev)
+					for k := 0; k < 8; k++ {
+						iv, isI := cur.(IfaceV)
+						if !isI {
+							break
+						}
+						if iv.V == "io.EOF" {
+							gotEnd = "error wrapping io.EOF"
+							break
+						}
+						w, wraps := iv.V.(WrapErrV)
+						if !wraps {
+							break
+						}
+						cur = w.Inner
+					}
 				}
 				if _, valNil := nt.E[0].(nilV); !valNil {
 					fail("Next returns a member together with an error")
@@ -390,6 +407,13 @@ func arConcrete(p *Prog) *arBounded {
 		if fmt.Sprint(got) != fmt.Sprint(wantEntries) {
 			fail(fmt.Sprintf("members %v, ar(5) says %v", got, wantEntries))
 			continue
+		}
+		if gotEnd == "error wrapping io.EOF" && wantEnd != "EOF" {
+			fail(fmt.Sprintf("after %d members the iteration fails with an error that wraps io.EOF although the archive does not end cleanly there: errors.Is(err, io.EOF) takes a damaged archive for a complete one", len(got)))
+			continue
+		}
+		if gotEnd == "error wrapping io.EOF" {
+			gotEnd = "error"
 		}
 		if gotEnd != wantEnd && !(wantEnd == "error-or-EOF" && (gotEnd == "error" || gotEnd == "EOF")) {
 			fail(fmt.Sprintf("after %d members the iteration ends with %s, want %s", len(got), gotEnd, wantEnd))
